@@ -485,3 +485,56 @@ def tools_scenario(rng, size='quick', **over):
     for k in keys:
         lines += [f'r {k}', f'ram {k}']
     return lines
+
+
+def fault_scenario(rng, size='quick', **over):
+    """C11: a history; then the n-th file operation of a kind on blob or index files fails (ENOSPC / EIO / short
+    write) during a client call or a background dump; queries immediately, after the fault is cleared, after restart"""
+    maxdata = rng.choice([1000000, 1000000, 4])
+    c, line = cfg_line(rng, dup=1, maxdata=maxdata, **over)
+    klen = c['key']
+    keys = mk_keys(rng, klen, 3)
+    absent = absent_keys(rng, klen, keys)
+    lines = [line, 'states', 'snap']
+    seed = 1
+
+    def data_op():
+        nonlocal seed
+        if rng.random() < 0.2:
+            return f'd {rng.choice(keys)} {rng.choice(TS_POOL)} - {rng.choice([0, 1])}'
+        seed += 1
+        return f'w {rng.choice(keys)} {rng.choice(TS_POOL)} {rng.choice(METAS_W)} {rng.choice([0, 10, 300, 5000, 90000])} {seed % 250 + 1}'
+    for _ in range(rng.randint(2, 6)):
+        lines += [data_op(), 'states']
+        if rng.random() < 0.3:
+            lines += [rng.choice(['close_active', 'force always', 'settle']), 'states']
+    lines += ['nomodel']
+    rounds = rng.randint(1, 3) if size == 'quick' else rng.randint(2, 6)
+    for _ in range(rounds):
+        kind = rng.choice(['write', 'write', 'sync', 'create', 'write'])
+        pat = rng.choice(['.blob', '.blob', '.index'])
+        nth = rng.choice([0, 0, 1, 2])
+        act = rng.choice(['fail:28', 'fail:5', 'short:0', 'short:7', 'short:60'])
+        if kind != 'write':
+            act = rng.choice(['fail:28', 'fail:5'])
+        lines.append(f'fault {kind} {nth} {pat} {act}')
+        for _ in range(rng.randint(1, 3)):
+            lines += [rng.choice([data_op(), data_op(), 'close_active', 'force always', 'create_active', 'settle',
+                                  'restore_active', 'fsync']), 'states']
+            for k in keys:
+                lines += [f'r {k}']
+        lines += ['clearfaults', 'states', 'alive']
+        for k in keys + absent[:1]:
+            lines += [f'r {k}', f'c {k}', f'ram {k}']
+        lines += ['wait 260', data_op(), 'states', data_op(), 'states', 'snap']
+        if rng.random() < 0.5:
+            lines += ['settle', 'states']
+        if rng.random() < 0.6:
+            lines += ['restart', 'states', 'snap']
+            for k in keys:
+                lines += [f'r {k}', f'ram {k}']
+    lines += ['restart', 'states', 'snap']
+    for k in keys:
+        lines += [f'r {k}', f'ram {k}']
+    lines += ['counts']
+    return lines
